@@ -447,10 +447,13 @@ package txmgr
 //@   loop#2 step[C01] cred.block.Height <= syncHeight && has(ret, strOf(cred.scriptHash)) && amt(curBal(ret, cred).Spendable) != old(amt(ret[cur(strOf(cred.scriptHash))].Spendable)) ==> consensusSpendable(cred.maturity, cred.block.Height, syncHeight) && cred.flags.Class == ClassStandardUtxo && !poolSpent(txpool, cred)
 //@   loop#2 step[C01] cred.block.Height <= syncHeight && has(ret, strOf(cred.scriptHash)) && amt(curBal(ret, cred).WithdrawableStaking) != old(amt(ret[cur(strOf(cred.scriptHash))].WithdrawableStaking)) ==> consensusSpendable(cred.maturity, cred.block.Height, syncHeight) && cred.flags.Class == ClassStakingUtxo && !poolSpent(txpool, cred)
 //@   loop#2 step[C01] cred.block.Height <= syncHeight && has(ret, strOf(cred.scriptHash)) && amt(curBal(ret, cred).WithdrawableBinding) != old(amt(ret[cur(strOf(cred.scriptHash))].WithdrawableBinding)) ==> consensusSpendable(cred.maturity, cred.block.Height, syncHeight) && cred.flags.Class == ClassBindingUtxo && !poolSpent(txpool, cred)
-//@   loop#2 step[C01] credCounted(tx, s, cred, ret, syncHeight, minConf) && credClass(tx, s, cred) == 0 && consensusSpendable(be32(credVal(tx, s, cred), 9), cred.block.Height, syncHeight) && !poolSpent(txpool, cred) ==> amt(ret[credVal(tx, s, cred)[13:45]].Spendable) == old(amt(ret[cur(credVal(tx, s, cred)[13:45])].Spendable)) + mathint(be64(credVal(tx, s, cred), 0))
-//@   loop#2 step[C01] credCounted(tx, s, cred, ret, syncHeight, minConf) && credClass(tx, s, cred) == 1 && consensusSpendable(be32(credVal(tx, s, cred), 9), cred.block.Height, syncHeight) && !poolSpent(txpool, cred) ==> amt(ret[credVal(tx, s, cred)[13:45]].WithdrawableStaking) == old(amt(ret[cur(credVal(tx, s, cred)[13:45])].WithdrawableStaking)) + mathint(be64(credVal(tx, s, cred), 0))
-//@   loop#2 step[C01] credCounted(tx, s, cred, ret, syncHeight, minConf) && credClass(tx, s, cred) == 2 && consensusSpendable(be32(credVal(tx, s, cred), 9), cred.block.Height, syncHeight) && !poolSpent(txpool, cred) ==> amt(ret[credVal(tx, s, cred)[13:45]].WithdrawableBinding) == old(amt(ret[cur(credVal(tx, s, cred)[13:45])].WithdrawableBinding)) + mathint(be64(credVal(tx, s, cred), 0))
-//@   loop#2 step[C01] credCounted(tx, s, cred, ret, syncHeight, minConf) ==> amt(ret[credVal(tx, s, cred)[13:45]].Total) == old(amt(ret[cur(credVal(tx, s, cred)[13:45])].Total)) + mathint(be64(credVal(tx, s, cred), 0))
+// L4 completeness half: the guards that decide whether a read credit is counted are exactly the specification
+// (confirmations against minConf; consensus spendability and mempool state; the class tests).  Together with the
+// per-iteration clauses above: a credit is added to a column exactly when the rule says so.
+//@   if#10 guard[C01] when cred.block.Height <= syncHeight :: mathint(syncHeight) - mathint(cred.block.Height) + 1 >= mathint(minConf)
+//@   if#12 guard[C01] when cred.block.Height <= syncHeight :: consensusSpendable(cred.maturity, cred.block.Height, syncHeight) && !poolSpent(txpool, cred)
+//@   if#13 guard[C01] cred.flags.Class == ClassBindingUtxo
+//@   if#15 guard[C01] cred.flags.Class == ClassStakingUtxo
 //@   loop#2 step[C17] has(ret, strOf(cred.scriptHash)) && amt(curBal(ret, cred).Spendable) != old(amt(ret[cur(strOf(cred.scriptHash))].Spendable)) ==> consensusSpendable(cred.maturity, cred.block.Height, syncHeight)
 //@   loop#2 step[C17] has(ret, strOf(cred.scriptHash)) && amt(curBal(ret, cred).WithdrawableStaking) != old(amt(ret[cur(strOf(cred.scriptHash))].WithdrawableStaking)) ==> consensusSpendable(cred.maturity, cred.block.Height, syncHeight)
 //@   loop#2 step[C17] has(ret, strOf(cred.scriptHash)) && amt(curBal(ret, cred).WithdrawableBinding) != old(amt(ret[cur(strOf(cred.scriptHash))].WithdrawableBinding)) ==> consensusSpendable(cred.maturity, cred.block.Height, syncHeight)
@@ -469,9 +472,3 @@ package txmgr
 // [C01]: in the quiescent state (the credit is not newer than the sync height); [C17]: for ANY relation between the
 // caller's sync height and the stored height (a query racing with block processing reads them at different times).
 
-// L4 completeness half: the credit of this iteration, read from the credits bucket at the key the unspent entry
-// points to, is counted when it is a real, non-zero credit of a queried script with enough confirmations.
-//@ define credKeyOf(cred) = keyCredit(&cred.outPoint.Hash, cred.outPoint.Index, cred.block)
-//@ define credVal(tx, s, cred) = bvalI(B(tx, s.bucketMeta.nsCredits), credKeyOf(cred))
-//@ define credClass(tx, s, cred) = (mathdiv(mathint(sbyteAt(credVal(tx, s, cred), 8)), 4) % 4)
-//@ define credCounted(tx, s, cred, ret, sync, minConf) = (bhasI(B(tx, s.bucketMeta.nsCredits), credKeyOf(cred)) && len(credVal(tx, s, cred)) >= 45 && be64(credVal(tx, s, cred), 0) != 0 && has(ret, credVal(tx, s, cred)[13:45]) && cred.block.Height <= sync && mathint(sync) - mathint(cred.block.Height) + 1 >= mathint(minConf))
